@@ -528,3 +528,34 @@ def residuals(spec, get, t, deviation=False, variant=None, which="transition"):
                 r += e["shock"] * get(wn[m], t)
             out.append(r)
     return out
+
+
+def residuals_as_written(spec, get, t, variant=None, which="transition"):
+    """Residuals lhs - rhs of the equations in the form they are written in the source: identical to
+    residuals() for the additive rendering; x_i - exp(c) * prod x_j(t+k)**a * exp(s*e) for the
+    multiplicative (log-variable) rendering.  Returns (residuals, largest term magnitude)."""
+    if not spec["log"]:
+        r = residuals(spec, get, t, variant=variant, which=which)
+        names = spec["names"] + meas_names(spec)
+        Lm, Fm = max_lag_lead(spec)
+        mag = max([abs(get(nm, t + k)) for nm in names for k in range(-Lm, Fm + 1) if not math.isnan(get(nm, t + k))] + [0.0])
+        return r, mag
+    names = spec["names"]
+    out, mag = [], 0.0
+    if which == "transition":
+        shn = shock_names(spec)
+        rows = [(names[i], e, (shn[i] and "shock:" + shn[i])) for i, e in enumerate(spec["eqs"])]
+    else:
+        mn, wn = meas_names(spec), mshock_names(spec)
+        rows = [(mn[m], e, wn[m]) for m, e in enumerate(spec["meas"])]
+    for lhs_name, e, shock in rows:
+        rhs = math.exp(e["const"])
+        for term in e["terms"]:
+            x = get(names[term[0]], t + term[1])
+            rhs *= x ** _term_value(spec, term, variant) if x > 0 else float("nan")
+        if e["shock"] != 0 and shock:
+            rhs *= math.exp(e["shock"] * get(shock, t))
+        lhs = get(lhs_name, t)
+        out.append(lhs - rhs)
+        mag = max(mag, abs(lhs), abs(rhs) if not math.isnan(rhs) else 0.0)
+    return out, mag
